@@ -1,8 +1,14 @@
 """Property -> rules.  A rule is evaluated by every property whose statement it is a necessary
 condition of (DESIGN §4 'Shared obligations')."""
-from . import successor, attack, uci_rules, draw, fen
+from . import successor, attack, uci_rules, draw, fen, search
 
 RULES = {
+    "R7.1": ("in get_best_move every accept site (best_move, send, alpha update, info, PV) is dominated by the not-expired edge of an out_of_time(start,t) re-read after alpha_beta_search; the only other send is the fallback (R7.3)", search.r7_1),
+    "R7.2": ("the abort sentinel is returned only under the entry clock test, which dominates every recursive call and table event; out_of_time is a pure clock comparison", search.r7_2),
+    "R10.5": ("add/remove on the repetition table balance on every exit of alpha_beta_search; test precedes add; no table events elsewhere in the search", search.r10_5),
+    "R3.2": ("every board sent is a clone of an element of generate_moves(root, AllMoves)", search.r3_2),
+    "R11.1": ("a move-less node returns 0 unless in check, else ply - MATE_SCORE", search.r11_1),
+    "R12.1": ("child scores are negated exactly once; the leaf hand-over to quiescence is returned unnegated", search.r12_1),
     "R8.1": ("the wait for the search thread has an exit that does not need a received move (channel disconnect) or the producer must-sends", uci_rules.r8_1),
     "R17.3": ("the byte count of the stdin read reaches a comparison whose zero edge ends the process (or is told apart by the command loop)", uci_rules.r17_3),
     "R10.3": ("the threefold predicate is true exactly for counts >= 2 (evaluated for all 256 counts)", draw.r10_3),
@@ -20,8 +26,12 @@ QUICK = {
     "C01": ["R1.1", "R1.3"],
     "C02": ["R2.1", "R2.2", "R2.3"],
     "C05": ["R5.2e"],
+    "C03": ["R3.2"],
+    "C07": ["R7.1", "R7.2", "R10.5"],
     "C08": ["R8.1"],
-    "C10": ["R10.3"],
+    "C11": ["R11.1"],
+    "C12": ["R12.1"],
+    "C10": ["R10.3", "R10.5"],
     "C15": ["R15.1", "R15.2"],
     "C17": ["R17.3"],
 }
